@@ -73,6 +73,14 @@ def jobs_c10(prop, tier, seed):
             execs.append((hdr, conv(beh[(i * 7 + k) % len(beh)]) + ["eq 0 1", "eq 0 2", "eq 1 2"]))
         for k in range(1 if quick else 4):
             execs.append((hdr, random_cmds(rng, 30)))
+    # allocator with user-specialised propagation traits (assignment does not propagate, swap does)
+    for c in ["vector", "deque", "list", "forward_list", "set", "map", "unordered_set"]:
+        for e in ["E8_8", "E17_1"]:
+            hdr = {"cont": c, "elem": e, "np": 1}
+            for k in range(2 if quick else 8):
+                execs.append((hdr, conv(beh[rng.randrange(len(beh))]) + ["eq 0 1"]))
+            for k in range(2 if quick else 6):
+                execs.append((hdr, random_cmds(rng, 30)))
     hdr = {"cont": "string", "elem": "char"}
     for k in range(6 if quick else 40):
         execs.append((hdr, random_cmds(rng, 30)))
